@@ -95,10 +95,12 @@ func sortKeys[K comparable](keys []K) {
 		sort.Slice(keys, func(i, j int) bool { return reflect.ValueOf(keys[i]).Int() < reflect.ValueOf(keys[j]).Int() })
 	case reflect.Uint, reflect.Uint8, reflect.Uint16, reflect.Uint32, reflect.Uint64, reflect.Uintptr:
 		sort.Slice(keys, func(i, j int) bool { return reflect.ValueOf(keys[i]).Uint() < reflect.ValueOf(keys[j]).Uint() })
-	case reflect.Ptr, reflect.UnsafePointer, reflect.Chan, reflect.Interface:
-		// No canonical order exists for addresses. The instrumenter refuses such sites
-		// (exit 2); reaching this is a bug in the instrumenter.
-		panic("simrt: map range over keys without a canonical order: " + reflect.TypeOf(zero).String())
+	case reflect.Ptr, reflect.UnsafePointer, reflect.Chan:
+		// Keys that are addresses have no order that is stable across processes. They are put in
+		// ascending address order: arbitrary, but fixed within a repetition, and the permuted
+		// repetitions iterate in a different order - which is all the C06 oracle needs. (A replay in
+		// another process may start from another base order; it still compares two different orders.)
+		sort.Slice(keys, func(i, j int) bool { return reflect.ValueOf(keys[i]).Pointer() < reflect.ValueOf(keys[j]).Pointer() })
 	default:
 		sort.Slice(keys, func(i, j int) bool { return fmt.Sprintf("%#v", keys[i]) < fmt.Sprintf("%#v", keys[j]) })
 	}
